@@ -491,6 +491,16 @@ where
                     self.below_action_limits(&self.runtime[mi], &self.machines.as_ref()[mi]);
                 let (allow_schedule, state_changed) = self.update_counter(mi);
 
+                // CounterZero transitions may have left next_state and entered
+                // it again, sampling a new limit for this new stay: the limits
+                // then have to be checked against that stay
+                let below_limits = if state_changed && self.runtime[mi].current_state == next_state
+                {
+                    self.below_action_limits(&self.runtime[mi], &self.machines.as_ref()[mi])
+                } else {
+                    below_limits
+                };
+
                 // schedule an action if allowed by counter update and below all limits
                 if allow_schedule && below_limits {
                     self.schedule_action(mi, next_state);
